@@ -359,6 +359,8 @@ def check(tier):
     from . import C09
     for idx in (0, 2):
         ck.add("first-row-rules/%d" % idx, "harness.C09", "interface_job", dict(cases=[(idx, "plain", 1)]))
+    # deterministic mode: the rows handed back are the integrator's rows with the rules applied to each of them exactly once
+    ck.add("deterministic-rows", "harness.C09", "deterministic_job", dict(cases=[(2, 2, 2)]), fresh=True)
     ck.extra_cov = dict(exhaustive=True, option_combinations=len(cs))
     ck.bounds = dict(option_lattice="2x3x2x4x2x2 = 192 combinations, all enumerated, x %d model shapes" % (len(cs) // 192),
                      grid="uniform, starting at 0, %d points, symbolic step" % (3 if tier == "quick" else 4),
